@@ -35,6 +35,8 @@ def run(chk, repo):
     chk.attempt(e2, chk, op)
     chk.attempt(e3, chk, op)
     chk.attempt(e4, chk, op)
+    chk.rule("C18-E6", "every loop on the open path is bounded: for-loops over finite collections; a while-loop makes progress in every iteration or leaves on a short/empty read", 0)
+    chk.attempt(e6, chk, op)
     from ..layout import UnmodelledConstruct
     L = Layouts(repo)
     SWALLOWING = {"Optional", "Select", "GreedyRange", "GreedyBytes", "GreedyString", "Peek", "RepeatUntil", "Default", "NullTerminated", "CString", "StopIf", "IfThenElse", "If", "Switch", "LazyStruct", "Lazy"}
@@ -115,9 +117,15 @@ def e2(chk, op):
     chk.require(type_guard, "C18-E2", where, "raises on an unknown record type", "parse_chunk no longer rejects unknown record types", key="parse_chunk:type-guard")
     # the size guard only works if parse_chunk is handed exactly the bytes the read returned
     rm = mod.func("read_metadata")
-    io_calls = [n for n in ast.walk(rm.node) if isinstance(n, ast.Call) and isinstance(n.func, ast.Attribute) and n.func.attr in ("read", "readinto", "readinto1", "readline", "recv_into")]
+    io_calls = []
+    for k in sorted(op.g.reachable([rm.key], stop=op.load_time)):
+        fk = op.g.funcs[k]
+        if fk.module.name.startswith("ceos_alos2.sar_image.caching") or fk.module.name.endswith(".testing"):
+            continue
+        io_calls += [n for n in ast.walk(fk.node) if isinstance(n, ast.Call) and isinstance(n.func, ast.Attribute) and n.func.attr in ("read", "readinto", "readinto1", "readline", "recv_into")
+                     and not (isinstance(n.func.value, ast.Name) and n.func.value.id in ("self",))]
     if not io_calls:
-        raise AnalysisError(f"{mod.relpath}:read_metadata: no read call found")
+        raise AnalysisError(f"{mod.relpath}:read_metadata: no read call found in it or in what it calls")
     intos = [n for n in io_calls if n.func.attr.startswith("readinto") or n.func.attr == "recv_into"]
     ignored = []
     for n in intos:
@@ -204,3 +212,72 @@ def e4(chk, op):
                             key=f"{fi.key}:except:{'/'.join(map(str, cname))}", sample={"handler": cname, "why": why})
     if n < 2:
         raise AnalysisError(f"only {n} non-re-raising handlers found on the open path (expected open_image and parse_summary)")
+
+
+def e6(chk, op):
+    """promptness: a truncated file must not make the open spin.  The pinned tree has no while-loop on the open path; one
+    that appears must either count with a positive step, or be left when a read comes back short / empty.  A loop whose
+    progress is the number of records parsed from what was read, without such an exit, never ends at the end of the file
+    as soon as an empty read parses to an empty list."""
+    repo = op.repo
+    n_loops = 0
+    for k in sorted(op.reach):
+        fi = op.g.funcs[k]
+        if fi.module.name.endswith(".testing"):
+            continue
+        for loop in [n for n in fi.own_nodes(include_lambdas=False) if isinstance(n, ast.While)]:
+            n_loops += 1
+            where = op.where(fi)
+            flow = Flow(fi)
+            body_nodes = [n for st in loop.body for n in ast.walk(st)]
+            reads = [n for n in body_nodes if isinstance(n, ast.Call) and isinstance(n.func, ast.Attribute) and n.func.attr in ("read", "readinto", "readline")]
+            # exits that depend on what a read returned
+            exits = []
+            for n in body_nodes:
+                if isinstance(n, (ast.Break, ast.Return, ast.Raise)):
+                    for test, pol in guards_of(n, loop):
+                        deps = flow.deps(test)
+                        txt = norm(flow.expand(test))
+                        if ".read(" in txt or any(isinstance(x, ast.Call) and isinstance(x.func, ast.Attribute) and x.func.attr == "read" for x in ast.walk(flow.expand(test))):
+                            exits.append(short(test, 40))
+            test_names = {x.id for x in ast.walk(loop.test) if isinstance(x, ast.Name)}
+            # counters: names in the test changed by a constant / positive step in the body
+            steps = [n for n in body_nodes if isinstance(n, ast.AugAssign) and isinstance(n.target, ast.Name) and n.target.id in test_names]
+            grown = [n for n in body_nodes if isinstance(n, ast.Call) and isinstance(n.func, ast.Attribute) and n.func.attr in ("extend", "append") and isinstance(n.func.value, ast.Name) and n.func.value.id in test_names]
+            if exits:
+                chk.ok("C18-E6", where, f"`while {short(loop.test, 40)}` is left when a read comes back short or empty ({exits[0]})")
+                continue
+            if steps and not grown:
+                # the step must not come from the data that was read
+                datadep = [s_ for s_ in steps if any(isinstance(x, ast.Call) and isinstance(x.func, ast.Attribute) and x.func.attr == "read" for x in ast.walk(flow.expand(s_.value)))]
+                if not datadep:
+                    chk.ok("C18-E6", where, f"`while {short(loop.test, 40)}` counts with {short(steps[0], 40)} (independent of the data read)")
+                    continue
+            if grown and reads:
+                # progress = number of parsed records: does an empty read parse to an empty list?
+                empties = _can_return_empty(repo, fi, grown[0])
+                if empties:
+                    chk.fail("C18-E6", where, f"`while {short(loop.test, 50)}` only ends when enough records have been parsed, and {empties}: at the end of a truncated file every read returns b'' "
+                                              f"and the loop never makes progress - the open hangs instead of raising", key=f"{fi.key}:while-no-progress")
+                    continue
+                chk.ok("C18-E6", where, f"`while {short(loop.test, 40)}`: progress is the number of parsed records and an empty read cannot parse (no path of the parser returns an empty result)")
+                continue
+            raise AnalysisError(f"{where}: `while {short(loop.test, 50)}`: no progress argument recognised; termination on a truncated file not decided")
+    if n_loops == 0:
+        chk.ok("C18-E6", "open path", f"no while-loop in the {len(op.reach)} functions of the open path: every loop iterates over a finite collection")
+
+
+def _can_return_empty(repo, fi, grow_call):
+    """does some repo function whose result feeds the growth have an explicit path returning an empty list for empty input?"""
+    from ..symexpr import Undecidable, summarize
+    out = []
+    for n in ast.walk(Flow(fi).expand(grow_call.args[0]) if grow_call.args else grow_call):
+        if isinstance(n, ast.Call):
+            for cal in resolve_callees(repo, fi, n.func):
+                if cal.func is None:
+                    continue
+                for r in [x for x in cal.func.own_nodes() if isinstance(x, ast.Return)]:
+                    if isinstance(r.value, (ast.List, ast.Tuple)) and not r.value.elts:
+                        gs = [short(t, 40) for t, pol in guards_of(r, cal.func.node)]
+                        out.append(f"{cal.func.qualname} returns an empty list when {' and '.join(gs) or 'called'}")
+    return "; ".join(out[:2])
